@@ -66,6 +66,7 @@ class base():
     def rhs(self, field):
         #print("t=",field.time)
         self.field = field
+        self.model.initdisc(self.mesh) # mesh dependent terms of the model (nozzle) may have been set by another discretization
         self.qdata = [ d.copy() for d in field.data ] # wonder if copy is necessary
         self.cons2prim()
         self.calc_grad()
